@@ -27,7 +27,7 @@ type traceKey struct{}
 type event struct {
 	id   int
 	path string // r.URL.Path
-	uri  string // r.RequestURI when it disagrees with r.URL.RequestURI(), else "" (not part of the canonical answer)
+	uri  string // r.RequestURI when it disagrees with r.URL.RequestURI(), else ""
 	err  string // "n" or the status of the error in the request context ("0": not a HandlerError)
 	repl string // "n" or the value of the {http.error.status_code} placeholder
 }
@@ -540,7 +540,11 @@ func canon(o observed) string {
 		if e.repl != e.err {
 			es += "/" + e.repl
 		}
-		t = append(t, fmt.Sprintf("%d.%s.%s", e.id, pathIndex(e.path), es))
+		ps := pathIndex(e.path)
+		if e.uri != "" {
+			ps += "!" + pathIndex(e.uri)
+		}
+		t = append(t, fmt.Sprintf("%d.%s.%s", e.id, ps, es))
 	}
 	ts := "-"
 	if len(t) > 0 {
